@@ -46,6 +46,8 @@ struct Scheduler::Data {
 
     using ReadyRoutineQueue = std::queue<RoutineToken>;
     ReadyRoutineQueue ready_routines;      //! 已就绪的 Routine 链表
+
+    bool is_cleaning_up = false;    //! cleanup() 正在遍历 routine_cabinet
 };
 
 //! 协程对象
@@ -129,6 +131,12 @@ Scheduler::~Scheduler()
 
 RoutineToken Scheduler::create(const RoutineEntry &entry, bool run_now, const string &name, size_t stack_size)
 {
+    //! cleanup() is iterating routine_cabinet: a routine created now would grow the cabinet under
+    //! the iteration (use-after-free) and would be started un-cancelled by cleanup(), which then
+    //! never returns if that routine blocks. Refuse it.
+    if (d_->is_cleaning_up)
+        return RoutineToken();
+
     Routine *new_routine = new Routine(entry, name, stack_size, *this);
     RoutineToken token = d_->routine_cabinet.alloc(new_routine);
     new_routine->token = token;
@@ -159,6 +167,8 @@ void Scheduler::cleanup()
 {
     TBOX_ASSERT(isInMainRoutine());  //! 仅限主协程使用
 
+    d_->is_cleaning_up = true;
+
     //! 遍历所有协程，如果未启动的协程则直接删除，如果已启动则标记取消
     d_->routine_cabinet.foreach(
         [this] (Routine *routine) {
@@ -186,6 +196,7 @@ void Scheduler::cleanup()
     //! 所以，这里的解决办法：令协程自行了结。
 
     d_->routine_cabinet.clear();
+    d_->is_cleaning_up = false;
 }
 
 void Scheduler::wait()
